@@ -15,6 +15,16 @@ CLAIMED = {
     note="Trusted: Lean kernel + standard axioms; hand-written model (Model/NameFilter, Filter) validated by the correspondence; aho-corasick modelled as infix search; filterset truth values are inputs (C05). merge_test_binary_args is modelled but only corresponded through the CLI stream when the end-to-end engine is available.",
     technique="Lean 4 proof (case analysis / induction) + differential correspondence of model vs real code",
     design="§5 C04"),
+ "C05": dict(
+    text="Lean 4 theorems: evaluation of the compiled filterset equals membership in the denoted set (eval_is_membership; difference = a and-not b; parentheses only group), independence of operator spelling (spelling_irrelevant), soundness of the three-valued binary-level evaluation (kleene_sound), and precedence/associativity for EVERY input string as a shape invariant of the model parser's output (parse_shape with corollaries). Tied to the code by differential checking of Filterset::parse/matches_test/matches_binary over generated package graphs and of the parser on generated strings.",
+    note="Trusted: Lean kernel + standard axioms; hand-written models of the scannerless parser (mirrors winnow combinator behaviour), of compile/eval, of package reachability and of the glob subset; regex truth/validity and glob validity are inputs taken from those crates directly; completeness of the fuelled reachability against the inductive closure is not yet proved (correspondence only).",
+    technique="Lean 4 proof (structural / mutual fuel induction) + differential correspondence",
+    design="§5 C05"),
+ "C20": dict(
+    text="Lean 4 theorems about the model of the parser/printer pair: complete ASCII table of per-character print-then-parse round trips (kernel-evaluated), no raw stop character is ever printed for any character, the regex printer escapes exactly the slashes; totality of the model parser is by construction (fuel recursion). The full statements (every reported span inside the input, expression-or-error, whole-expression round trip) are checked on the implementation by monitors on every generated string and by model/implementation agreement on AST, error kinds and spans; they are NOT YET proved as theorems.",
+    note="Partial: spans_in_input, result_or_error and print_parse_roundtrip rest on the correspondence (model == implementation on all generated strings) plus direct monitors on the real parser; stack depth is outside the model (deep-nesting stream; known finding F4). Trusted: Lean kernel, model of parsing.rs, regex/globset validity as inputs.",
+    technique="Lean 4 proof (finite table by kernel evaluation, case analysis) + differential correspondence + monitors",
+    design="§5 C20"),
 }
 NOT_YET = "not yet claimed: model/theorems for this property are still being built (see DESIGN.md §5); no other technique is substituted"
 
